@@ -226,17 +226,16 @@ def r2(ctx) -> None:
 def r3(ctx) -> None:
     repo = ctx.repo
     un = ctx.fn(MAT, "MatrixProviderUnlinked.number_of_clps")
-    txt = norm(un.node)
-    ok_full = "len(model_clp_labels) * len(global_clp_labels)" in txt and "self.get_matrix_container(dataset_label).clp_labels" in txt \
-        and "self.get_global_matrix_container(dataset_label).clp_labels" in txt
+    txt = lib.xfn(un, repo)
+    ok_full = "len(self.get_matrix_container(dataset_label).clp_labels) * len(self.get_global_matrix_container(dataset_label).clp_labels)" in txt
     ctx.ob("C13-R3", "MatrixProviderUnlinked.number_of_clps/full-model", ok_full, un, un.node,
            "full models: number of model clp labels times number of global clp labels", construct="len(model_clp_labels) * len(global_clp_labels)")
     gens = [n for n in lib.nodes(un, ast.GeneratorExp)]
-    ok = any(norm(g.elt) == "len(self.get_prepared_matrix_container(dataset_label, index).clp_labels)" and not g.generators[0].ifs
-             and norm(g.generators[0].iter) == "global_axis_indexes" for g in gens)
     fl = lib.flow(un, repo)
-    rng = [d for d in fl.defs_of("global_axis_indexes") if d.kind == "assign"]
-    ok = ok and any(norm(d.value) == "range(len(self._data_provider.get_global_axis(dataset_label)))" for d in rng)
+    # temporaries (the index range, hoisted sub-expressions) are looked through
+    xg = [n for n in ast.walk(fl.inlined_function()) if isinstance(n, ast.GeneratorExp)]
+    ok = any(norm(g.elt) == "len(self.get_prepared_matrix_container(dataset_label, index).clp_labels)" and not g.generators[0].ifs
+             and norm(g.generators[0].iter) == "range(len(self._data_provider.get_global_axis(dataset_label)))" for g in xg)
     ctx.ob("C13-R3", "MatrixProviderUnlinked.number_of_clps/reduced-per-index", ok, un, gens[0] if gens else un.node,
            "per index the labels of the *prepared* (constraint and relation reduced) container are counted, over every global index",
            construct=lib.short(gens[0], 110) if gens else "def")
@@ -248,9 +247,9 @@ def r3(ctx) -> None:
     li = ctx.fn(MAT, "MatrixProviderLinked.number_of_clps")
     gens = [n for n in lib.nodes(li, ast.GeneratorExp)]
     fll = lib.flow(li, repo)
-    rng = [d for d in fll.defs_of("global_axis_indexes") if d.kind == "assign"]
-    ok = any(norm(g.elt) == "len(self.get_aligned_matrix_container(index).clp_labels)" and not g.generators[0].ifs for g in gens) and any(
-        norm(d.value) == "range(len(self._data_provider.aligned_global_axis))" for d in rng)
+    xg = [n for n in ast.walk(fll.inlined_function()) if isinstance(n, ast.GeneratorExp)]
+    ok = any(norm(g.elt) == "len(self.get_aligned_matrix_container(index).clp_labels)" and not g.generators[0].ifs
+             and norm(g.generators[0].iter) == "range(len(self._data_provider.aligned_global_axis))" for g in xg)
     ctx.ob("C13-R3", "MatrixProviderLinked.number_of_clps/reduced-per-aligned-index", ok, li, gens[0] if gens else li.node,
            "linked groups: labels of the reduced aligned container at every aligned index", construct=lib.short(gens[0], 100) if gens else "def")
     gp = ctx.fn(GRP, "OptimizationGroup.number_of_clps")
